@@ -43,8 +43,9 @@ import (
 // c08Srv is a miniredis with a counting / fault-injecting pre-hook.
 type c08Srv struct {
 	mr       *miniredis.Miniredis
-	owner    string       // substring of every key the owning scenario(s) use
-	evals    atomic.Int64 // EVAL/EVALSHA commands let through to execution
+	owner    atomic.Pointer[string] // substring of every key the owning scenario(s) use
+	closable bool                   // may be Close()d/Restart()ed by scenarios (its client pool may hold dead connections)
+	evals    atomic.Int64           // EVAL/EVALSHA commands let through to execution
 	pings    atomic.Int64
 	rejected atomic.Int64 // commands answered with the injected error
 	rejEvals atomic.Int64 // of those, EVAL/EVALSHA (evidence only: how often the limiter still tried Redis during a fault)
@@ -127,7 +128,8 @@ func newC08Srv(owner string) (*c08Srv, error) {
 			return nil, fmt.Errorf("no unused port after %d tries", try)
 		}
 	}
-	s := &c08Srv{mr: mr, owner: owner}
+	s := &c08Srv{mr: mr}
+	s.owner.Store(&owner)
 	s.install()
 	return s, nil
 }
@@ -135,7 +137,7 @@ func newC08Srv(owner string) (*c08Srv, error) {
 // install (re)attaches the hook; Restart creates a new server object.
 func (s *c08Srv) install() {
 	s.mr.Server().SetPreHook(func(c *server.Peer, cmd string, args ...string) bool {
-		if (cmd == "EVAL" || cmd == "EVALSHA") && len(args) >= 3 && !strings.Contains(args[2], s.owner) {
+		if (cmd == "EVAL" || cmd == "EVALSHA") && len(args) >= 3 && !strings.Contains(args[2], *s.owner.Load()) {
 			// not ours: remember whose it is, let it run (its keys are disjoint from ours), do not count it
 			k := args[2]
 			if i, j := strings.Index(k, "{"), strings.Index(k, "}"); i >= 0 && j > i {
@@ -182,6 +184,67 @@ func (s *c08Srv) install() {
 		}
 		return false
 	})
+}
+
+// Harness servers are reused from scenario to scenario. The redis package keeps
+// one go-redis client (pool of >= 8 connections) per address for the life of the
+// process and offers no way to close it, so a server per scenario leaks its
+// client's sockets: thousands of scenarios exhaust the process's descriptors and
+// every dial fails. Two pools: "pristine" servers are never closed (faults only
+// through the hook), so their client pools never hold a dead connection;
+// "closable" ones are used by scenarios that Close()/Restart() the server.
+var c08Pool struct {
+	mu       sync.Mutex
+	pristine []*c08Srv
+	closable []*c08Srv
+}
+
+func acquireC08Srv(owner string, closable bool) (*c08Srv, error) {
+	c08Pool.mu.Lock()
+	list := &c08Pool.pristine
+	if closable {
+		list = &c08Pool.closable
+	}
+	var s *c08Srv
+	if n := len(*list); n > 0 {
+		s = (*list)[n-1]
+		*list = (*list)[:n-1]
+	}
+	c08Pool.mu.Unlock()
+	if s == nil {
+		var err error
+		if s, err = newC08Srv(owner); err != nil {
+			return nil, err
+		}
+		s.closable = closable
+		return s, nil
+	}
+	s.owner.Store(&owner)
+	return s, nil
+}
+
+// done removes every fault, makes sure the server runs, empties it and hands it
+// back to its pool. A server that cannot be brought back is closed and dropped.
+func (s *c08Srv) done() {
+	s.release()
+	s.errMode.Store(false)
+	s.garbage.Store(0)
+	if s.mr.Server() == nil {
+		if !s.closable || s.mr.Restart() != nil {
+			s.mr.Close()
+			return
+		}
+	}
+	s.install()
+	s.mr.FlushAll()
+	s.rejEvals.Store(0)
+	c08Pool.mu.Lock()
+	if s.closable {
+		c08Pool.closable = append(c08Pool.closable, s)
+	} else {
+		c08Pool.pristine = append(c08Pool.pristine, s)
+	}
+	c08Pool.mu.Unlock()
 }
 
 // c08Alive asks the server PING over a raw connection (independent of go-redis).
@@ -678,12 +741,12 @@ const c08FastCall = time.Second
 func runC08Sustained(m *vk.M, idx int, sc c08SScenario) {
 	desc := fmt.Sprintf("case=%d;%s", idx, vk.JSON(sc))
 	key := fmt.Sprintf("c08u%d", idx)
-	srv, err := newC08Srv("{" + key + "}")
+	srv, err := acquireC08Srv("{"+key+"}", false)
 	if err != nil {
 		m.Inconclusive("miniredis: %v", err)
 		return
 	}
-	defer srv.mr.Close()
+	defer srv.done()
 	store := redis.New(srv.mr.Addr())
 	lims := make([]*TokenLimiter, sc.Lims)
 	for i := range lims {
@@ -867,7 +930,7 @@ func TestVerifC08TokenAllowRealClock(t *testing.T) {
 		useCtx := r.Intn(2) == 0
 		desc := fmt.Sprintf("case=%d;{\"rate\":%d,\"burst\":%d,\"calls\":%d,\"allowctx\":%v}", i, rate, burst, calls, useCtx)
 		key := fmt.Sprintf("c08w%d", i)
-		srv, err := newC08Srv("{" + key + "}")
+		srv, err := acquireC08Srv("{"+key+"}", false)
 		if err != nil {
 			m.Inconclusive("miniredis: %v", err)
 			return
@@ -889,7 +952,7 @@ func TestVerifC08TokenAllowRealClock(t *testing.T) {
 		}
 		sec1 := time.Now().Unix()
 		e := srv.evals.Load() - e0
-		srv.mr.Close()
+		srv.done()
 		m.Count("allow-real.calls", int64(calls))
 		m.Count("allow-real.granted", granted)
 		if e != int64(calls) || c08Misrouted(key) {
@@ -961,7 +1024,7 @@ func runC08Crowd(m *vk.M, i int, r *rand.Rand, G, per int, keyPrefix, sig, cnt s
 			desc := fmt.Sprintf("case=%d;{\"rate\":%d,\"burst\":%d,\"limiters_on_one_key\":%d,\"goroutines\":%d,\"calls_each\":%d}", i, rate, burst, nl, G, per)
 			m.Current(desc)
 			key := fmt.Sprintf("%s%d", keyPrefix, i)
-			srv, err := newC08Srv("{" + key + "}")
+			srv, err := acquireC08Srv("{"+key+"}", false)
 			if err != nil {
 				m.Inconclusive("miniredis: %v", err)
 				return false
@@ -1036,7 +1099,7 @@ func runC08Crowd(m *vk.M, i int, r *rand.Rand, G, per int, keyPrefix, sig, cnt s
 				}
 				level -= granted.Load()
 			}
-			srv.mr.Close()
+			srv.done()
 			if ok {
 				m.Count(cnt+".answered-without-script", offRedis)
 				m.Count(cnt+".grant", totalGrant)
@@ -1415,12 +1478,12 @@ func runC08Outage(m *vk.M, idx int, sc c08OScenario) {
 	}
 	x := &c08ORun{m: m, idx: idx, sc: sc, desc: fmt.Sprintf("case=%d;%s", idx, vk.JSON(sc))}
 	x.key = fmt.Sprintf("c08o%d", idx)
-	srv, err := newC08Srv("{" + x.key + "}")
+	srv, err := acquireC08Srv("{"+x.key+"}", true)
 	if err != nil {
 		m.Inconclusive("miniredis: %v", err)
 		return
 	}
-	defer srv.mr.Close()
+	defer srv.done()
 	x.srv = srv
 	x.tl = NewTokenLimiter(int(sc.Rate), int(sc.Burst), redis.New(srv.mr.Addr()), x.key)
 	x.clock = time.Unix(sc.Base, sc.BaseNs)
@@ -1512,13 +1575,12 @@ func runC08Silent(m *vk.M, idx int) {
 	sc := c08OScenario{Rate: rate, Burst: burst, Base: 1_600_000_000 + int64(r.Intn(100_000_000))}
 	x := &c08ORun{m: m, idx: idx, sc: sc, key: fmt.Sprintf("c08q%d", idx)}
 	x.desc = fmt.Sprintf("case=%d;{\"fault\":\"silent\",\"rate\":%d,\"burst\":%d}", idx, rate, burst)
-	srv, err := newC08Srv("{" + x.key + "}")
+	srv, err := acquireC08Srv("{"+x.key+"}", true)
 	if err != nil {
 		m.Inconclusive("miniredis: %v", err)
 		return
 	}
-	defer srv.mr.Close()
-	defer srv.release()
+	defer srv.done()
 	x.srv = srv
 	x.tl = NewTokenLimiter(int(rate), int(burst), redis.New(srv.mr.Addr()), x.key)
 	x.clock = time.Unix(sc.Base, 0)
@@ -1588,12 +1650,12 @@ func runC08LongOutage(m *vk.M, idx int, fault string, down time.Duration) {
 	sc := c08OScenario{Rate: rate, Burst: burst, Base: 1_600_000_000 + int64(r.Intn(100_000_000))}
 	x := &c08ORun{m: m, idx: idx, sc: sc, key: fmt.Sprintf("c08l%d", idx)}
 	x.desc = fmt.Sprintf("case=%d;{\"fault\":%q,\"outage_real_ms\":%d,\"rate\":%d,\"burst\":%d}", idx, fault, down.Milliseconds(), rate, burst)
-	srv, err := newC08Srv("{" + x.key + "}")
+	srv, err := acquireC08Srv("{"+x.key+"}", true)
 	if err != nil {
 		m.Inconclusive("miniredis: %v", err)
 		return
 	}
-	defer srv.mr.Close()
+	defer srv.done()
 	x.srv = srv
 	x.tl = NewTokenLimiter(int(rate), int(burst), redis.New(srv.mr.Addr()), x.key)
 	x.clock = time.Unix(sc.Base, 0)
@@ -1675,12 +1737,12 @@ func runC08BreakerOpen(m *vk.M, idx int) {
 	failures := 40 + r.Intn(60)
 	x := &c08ORun{m: m, idx: idx, sc: sc, key: fmt.Sprintf("c08b%d", idx)}
 	x.desc = fmt.Sprintf("case=%d;{\"fault\":\"breaker of the shared store opened by %d failing PeriodLimit takes\",\"rate\":%d,\"burst\":%d}", idx, failures, rate, burst)
-	srv, err := newC08Srv("{" + x.key + "}")
+	srv, err := acquireC08Srv("{"+x.key+"}", false)
 	if err != nil {
 		m.Inconclusive("miniredis: %v", err)
 		return
 	}
-	defer srv.mr.Close()
+	defer srv.done()
 	x.srv = srv
 	store := redis.New(srv.mr.Addr())
 	x.tl = NewTokenLimiter(int(rate), int(burst), store, x.key)
@@ -1878,12 +1940,12 @@ func runC08TokenRace(m *vk.M, idx, G int) {
 	}
 	desc := fmt.Sprintf("case=%d;{\"rate\":%d,\"burst\":%d,\"goroutines\":%d,\"calls_each\":%d,\"fault\":%q}", idx, rate, burst, G, per, fault)
 	key := fmt.Sprintf("c08tr%d", idx)
-	srv, err := newC08Srv("{" + key + "}")
+	srv, err := acquireC08Srv("{"+key+"}", true)
 	if err != nil {
 		m.Inconclusive("miniredis: %v", err)
 		return
 	}
-	defer srv.mr.Close()
+	defer srv.done()
 	tl := NewTokenLimiter(int(rate), int(burst), redis.New(srv.mr.Addr()), key)
 	clock := time.Unix(1_600_000_000+int64(r.Intn(1000000)), 0)
 	advance := func(sec int64) {
